@@ -71,6 +71,71 @@ class Exchange(Process):
         return {'internal': {'A': 1.0}}
 
 
+class Adaptive(Process):
+    """its timestep is read from the state (ctl/dt), which another process changes while this one is deferred"""
+    defaults = {}
+
+    def ports_schema(self):
+        return {'ctl': {'dt': {'_default': 3.0, '_emit': True}}, 'out': {'elapsed': {'_default': 0.0, '_emit': True},
+                                                                          'runs': {'_default': 0, '_emit': True}}}
+
+    def calculate_timestep(self, states):
+        return states['ctl']['dt']
+
+    def next_update(self, timestep, states):
+        return {'out': {'elapsed': timestep, 'runs': 1}}
+
+
+class Retune(Process):
+    defaults = {'timestep': 1.0, 'script': {}}
+
+    def __init__(self, parameters=None):
+        super().__init__(parameters)
+        self.k = 0
+
+    def ports_schema(self):
+        return {'ctl': {'dt': {'_default': 3.0, '_updater': 'set'}}}
+
+    def next_update(self, timestep, states):
+        self.k += 1
+        v = self.parameters['script'].get(self.k)
+        return {'ctl': {'dt': v}} if v is not None else {}
+
+
+# (the answer changes while the process is deferred, but never to an interval that ends at or before the current global time:
+#  that is the region of the recorded finding F-C03-shrink)
+ADAPTIVE_CASES = [{'script': {1: 2.5}, 'calls': [2.0, 2.0, 2.0]}, {'script': {1: 4.0}, 'calls': [2.0, 2.0, 2.0]},
+                  {'script': {2: 3.5}, 'calls': [2.5, 2.5, 2.0]}, {'script': {}, 'calls': [2.0, 2.0, 2.0]}]
+
+
+def adaptive_case(case, parallel):
+    eng = Engine(processes={'retune': Retune({'script': case['script']}), 'adaptive': Adaptive({'_parallel': parallel})},
+                 topology={'retune': {'ctl': ('ctl',)}, 'adaptive': {'ctl': ('ctl',), 'out': ('out',)}},
+                 display_info=False, progress_bar=False)
+    for dt in case['calls']:
+        eng.run_for(dt)            # caller-managed, not forced: a process whose interval does not fit is asked again later
+    eng.update(1.0)
+    data = eng.emitter.get_data()
+    eng.end()
+    return data
+
+
+def check_adaptive(case):
+    """a process whose timestep depends on the STATE, asked for it again after the state changed (it was deferred in between): in its
+    own OS process it runs at the same times with the same timesteps as serially"""
+    try:
+        with L.Watchdog(90):
+            serial = adaptive_case(case, False)
+            par = adaptive_case(case, True)
+    except Exception as e:
+        return ['state-dependent timestep with a parallel process raised %s: %s' % (type(e).__name__, str(e)[:160])]
+    if serial != par:
+        t = next((t for t in serial if par.get(t) != serial[t]), None)
+        return ['a state-dependent timestep: the parallel run differs from the serial run; first difference at t=%s: serial %r, parallel %r'
+                % (t, serial.get(t), par.get(t))]
+    return []
+
+
 OVERRIDE_CASES = [
     {'_schema': {'internal': {'A': {'_default': 7.0}, 'B': {'_default': 3, '_emit': True}}}},
     {'_schema': {'internal': {'A': {'_updater': 'set'}}}},
@@ -175,6 +240,23 @@ def main():
             fails = check_override(d['override'] if not isinstance(d['override'], int) else OVERRIDE_CASES[d['override']])
             L.emit_result({'status': 'reproduced' if fails else 'not-reproduced', 'failed': fails})
             return
+    if a.replay and 'adaptive' in json.load(open(a.replay))['scenario']:
+        fails = check_adaptive(ADAPTIVE_CASES[json.load(open(a.replay))['scenario']['adaptive']])
+        L.emit_result({'status': 'reproduced' if fails else 'not-reproduced', 'failed': fails})
+        return
+    # (5) state-dependent timesteps
+    if a.only is None:
+        for ai, case in enumerate(ADAPTIVE_CASES):
+            evaluations += 1
+            distinct.add('adaptive-%d' % ai)
+            fails = check_adaptive(case)
+            left = settle()
+            if left:
+                fails.append('%d worker processes alive after the adaptive case' % len(left))
+                for c in left:
+                    c.terminate()
+            if fails:
+                fail('adaptive%d' % ai, {'adaptive': ai}, fails)
     # (4) schema overrides of parallel processes
     for oi, cfg in enumerate(OVERRIDE_CASES):
         evaluations += 1
